@@ -40,10 +40,14 @@ FTYPES = {
     "union": ("Union[PositiveInt, date]", ["6", "'2020-01-02'", "'x'", "-2"]),
     "nested": ("N", ["{'v': 1}", "{'v': '2'}", "{'v': 'x'}", "{}", "5"]),
     "dict": ("Dict[str, int]", ["{'k': 1}", "{'k': 'x'}", "None", "5"]),
+    # always convertible: the owner of the typed property p -> PositiveInt of base 'SchemaProp'
+    "intok": ("int", ["1", "'2'", "-1", "'0'"]),
     "when": ("datetime", ["datetime(2020,1,2,3,4,5)", "'2020-01-02T03:04:05'", "None", "'x'"]),
 }
-ORDER = list(FTYPES)
+ORDER = [t for t in FTYPES if t != "intok"]
 ADDITIONS = ["", "addition=False", "addition=int"]
+# further options of the declaration (the black-box item judgement runs under the same ones)
+XOPTS = ["", "ignore_constraints=True"]
 EXCESS = [(), (("zz", "1"),), (("zz", "'x'"),), (("zz", "'x'"), ("yy", "2"))]
 MAXERR = [None, 1, 2, 3]
 NAMES = ["a", "b", "c"]
@@ -66,6 +70,10 @@ def decls(tier):
                 continue
             out.append((base, ((t1, True), (t2, False), (t3, True))))
     out += [("varargs", ()), ("varargs", (("int", True),))]
+    # a Schema whose typed property is computed from field a: an invalid property value is an error of the item 'p'
+    out.append(("SchemaProp", (("intok", True),)))
+    for t in ORDER:
+        out.append(("SchemaProp", (("intok", True), (t, t in ("int", "list", "nested")))))
     return out
 
 
@@ -88,12 +96,14 @@ PRELUDE = "class N(Schema):\n    v: int\n"
 def source(base, fields, add_expr):
     """-> source text defining make(options) -> parse callable taking a dict (and *args for varargs)"""
     lines = [PRELUDE]
-    if base in ("Schema", "DataClass"):
-        lines.append(f"class S({base}):")
+    if base in ("Schema", "DataClass", "SchemaProp"):
+        lines.append(f"class S({base.replace('Prop', '')}):")
         lines.append(f"    __options__ = Options({add_expr})" if add_expr else "    pass")
         for n, (t, req) in zip(NAMES, fields):
             ann = FTYPES[t][0]
             lines.append(f"    {n}: {ann}" + ("" if req else " = Field(required=False)"))
+        if base == "SchemaProp":
+            lines += ["    @property", "    def p(self) -> PositiveInt:", "        return self.a"]
         lines.append("def make(opts):")
         lines.append("    return lambda data, args=(): S.__from__(data, options=opts)")
     else:
@@ -130,14 +140,14 @@ def options(add_expr, collect, maxerr):
 _ALONE = {}
 
 
-def fails_alone(env, t, vx):
-    """black box: does the field type alone reject the value?"""
-    key = (t, vx)
+def fails_alone(env, t, vx, xopt=""):
+    """black box: does the field type alone reject the value (under the declaration's further options)?"""
+    key = (t, vx, xopt)
     r = _ALONE.get(key)
     if r is None:
         typ = eval(f"T({FTYPES[t][0]})" if t != "nested" else "N", env)
         try:
-            env["type_transform"](ev(vx), typ)
+            env["type_transform"](ev(vx), typ, options=eval(f"Options({xopt})", _NS))
             r = False
         except uexc.ParseError:
             r = True
@@ -148,7 +158,7 @@ def fails_alone(env, t, vx):
 
 
 def int_fails(env, vx):
-    key = ("<int>", vx)
+    key = ("<int>", vx, "")
     r = _ALONE.get(key)
     if r is None:
         try:
@@ -173,7 +183,7 @@ def inputs(base, fields, tier):
                 yield combo, ex, ()
 
 
-def expected_failing(env, base, fields, add_expr, combo, ex, args):
+def expected_failing(env, base, fields, add_expr, combo, ex, args, xopt=""):
     """set of failing top-level items, each judged alone"""
     bad = set()
     npos = 0
@@ -195,7 +205,7 @@ def expected_failing(env, base, fields, add_expr, combo, ex, args):
             continue
         if base in ("func", "varargs") and not req and vx == "None":
             pass
-        if fails_alone(env, t, vx):
+        if fails_alone(env, t, vx, xopt):
             bad.add(n)
     is_func = base in ("func", "varargs")
     for k, vx in ex:
@@ -203,11 +213,16 @@ def expected_failing(env, base, fields, add_expr, combo, ex, args):
             # **kwargs: int converts every extra keyword
             if int_fails(env, vx):
                 bad.add(f"**kwargs:{k}")
-        elif add_expr == "addition=False":
+        elif add_expr.startswith("addition=False"):
             bad.add(k)
-        elif add_expr == "addition=int":
+        elif add_expr.startswith("addition=int"):
             if int_fails(env, vx):
                 bad.add(k)
+    if base == "SchemaProp" and not bad and "ignore_constraints" not in xopt:
+        # properties are computed from the parsed instance, so only when every input item is valid: the property
+        # value is the converted a, and PositiveInt rejects it when it is not positive
+        if int(ev(combo[0])) <= 0:
+            bad.add("p")
     return bad
 
 
@@ -215,8 +230,10 @@ def run_shard(shard, tier):
     _, lo, hi = shard
     acc = Acc()
     for base, fields in decls(tier)[lo:hi]:
-        adds = ADDITIONS if base in ("Schema", "DataClass") else [""]
-        for add_expr in adds:
+        adds = ADDITIONS if base in ("Schema", "DataClass", "SchemaProp") else [""]
+        xopts = XOPTS if len(fields) <= 2 else [""]
+        for add_expr, xopt in itertools.product(adds, xopts):
+            add_expr = ", ".join(p for p in (add_expr, xopt) if p)
             try:
                 env, src = build(base, fields, add_expr)
                 makers = {(c, m): env["make"](options(add_expr, c, m)) for c, m in
@@ -227,7 +244,7 @@ def run_shard(shard, tier):
                     acc.notes.append(f"rejected: {base} {fields} {add_expr}: {type(e).__name__}: {short(e, 80)}")
                 continue
             for combo, ex, args in inputs(base, fields, tier):
-                one_case(acc, env, src, makers, base, fields, add_expr, combo, ex, args)
+                one_case(acc, env, src, makers, base, fields, add_expr, combo, ex, args, xopt)
         _ALONE.clear()
         try:
             from utype.parser import base as _pb
@@ -242,7 +259,7 @@ def item_of(err):
     return it
 
 
-def one_case(acc, env, src, makers, base, fields, add_expr, combo, ex, args):
+def one_case(acc, env, src, makers, base, fields, add_expr, combo, ex, args, xopt=""):
     data_items = [(n, vx) for n, vx in zip(NAMES, combo) if vx is not None]
     if base == "varargs":
         # parameters bound by position are not passed by keyword as well
@@ -251,7 +268,7 @@ def one_case(acc, env, src, makers, base, fields, add_expr, combo, ex, args):
     args_expr = "(" + "".join(a + ", " for a in args) + ")"
     acc.states += 1
     want = expected_failing(env, base, fields, add_expr, combo if base != "varargs" else
-                            tuple(None if (i < len(args)) else c for i, c in enumerate(combo)) if False else combo, ex, args)
+                            tuple(None if (i < len(args)) else c for i, c in enumerate(combo)) if False else combo, ex, args, xopt)
     runs = {}
     for key, fn in makers.items():
         if "ENTERED" in env:
